@@ -90,6 +90,11 @@ Definition memb (x : nat) (l : list nat) : bool := existsb (Nat.eqb x) l.
 Definition descendants (p : list nat) (v : nat) : list nat :=
   filter (fun d => memb d (desc_raw p (length p) v)) (seq 0 (length p)).
 
+(* get_descendants(v, exclude_self=True): v is removed from the final list only (not inside the
+   recursion); a vertex without children returns [] (after commit b59d970) *)
+Definition descendants_excl (p : list nat) (v : nat) : list nat :=
+  filter (fun d => negb (d =? v)) (descendants p v).
+
 (* depth_from_leaves (forest.py:289-305) exactly as written: at most V in-place
    sweeps in index order, stopping when a sweep changes nothing
    (`(dc == depth).all()`). *)
